@@ -33,9 +33,10 @@ const (
 )
 
 var layout = map[string][]string{
-	allowedDB: {"cpu", "mem"},
-	secretDB:  {"cpu", "vault"},
-	defaultDB: {"cpu"},
+	allowedDB: {"cpu", "mem", "pg_ok"},
+	secretDB:  {"cpu", "vault", "pg_ledger"},
+	// measurements whose names start with a skipPrefixes entry exist too (only reachable quoted)
+	defaultDB: {"cpu", "pg_ledger", "duckdb_audit", "information_schema_log", "read_parquet_log"},
 }
 
 // ---------------------------------------------------------------- recording RBAC checker
